@@ -286,6 +286,19 @@ func c16Scenario(depth, k, p int) mc.Scenario {
 						derive(s.Pick(map[string]bool{"a": true, "b": false, "c": true}), nm)
 					}})
 				}
+				if hasA && hasB {
+					ops = append(ops, op{"Pick(a, map{a:false,b:true})", func() {
+						nm := m.clone()
+						nm.fields = map[string]string{"a": m.fields["a"], "b": m.fields["b"]}
+						derive(s.Pick("a", map[string]bool{"a": false, "b": true}), nm)
+					}})
+					ops = append(ops, op{"Omit(a, map{a:false}, b)", func() {
+						nm := m.clone()
+						delete(nm.fields, "a")
+						delete(nm.fields, "b")
+						derive(s.Omit("a", map[string]bool{"a": false}, "b"), nm)
+					}})
+				}
 				if hasB {
 					ops = append(ops, op{"Omit(map{b:true,c:false})", func() {
 						nm := m.clone()
